@@ -54,6 +54,13 @@ fn rand_elem(r: &mut Prng) -> Vec<u8> {
 
 pub fn gen(seed: u64, thorough: bool, _only: Option<u64>, out: &mut Out) {
   let mut vals = lattice();
+  // ... and elements whose internal (Montgomery, times 2^192) form is 1, 2^64 - 1, 2^64, 2^128 - 1, 2^128
+  {
+    let rinv = Fp::from(2u64).invert().unwrap().pow_vartime([192u64]);
+    for internal in [le24(0, 1), le24(0, (1u128 << 64) - 1), le24(0, 1u128 << 64), le24(0, u128::MAX), le24(1, 0)] {
+      vals.push(bytes_of(&(fp_of(&internal).unwrap() * rinv)));
+    }
+  }
   let mut r = Prng::for_case(seed, "C07", 0);
   let extra = if thorough { 120 } else { 8 };
   for _ in 0..extra {
